@@ -4,7 +4,9 @@ import (
 	"fmt"
 	"math/rand"
 	"sort"
+	"strconv"
 	"strings"
+	"time"
 
 	"github.com/cespare/xxhash/v2"
 	"github.com/lindb/common/proto/gen/v1/flatMetricsV1"
@@ -28,13 +30,33 @@ func init() { core.Register(area{}) }
 
 func (area) Name() string { return "layout" }
 
+// area arguments (checks/C12.json "args"): leaf_timeout_ms = deadline of a leaf's task context
+// (the unchanged tree answers in microseconds; a leaf that waits for something that never happens
+// must not take a minute per case), case_timeout_s = per-case watchdog, max_fails = the run stops
+// after that many oracle failures.
+var leafTimeout = 1500 * time.Millisecond
+
+func argInt(c *core.Ctx, name string, def int) int {
+	if v, ok := c.Args[name]; ok {
+		if n, err := strconv.Atoi(v); err == nil && n > 0 {
+			return n
+		}
+	}
+	return def
+}
+
 func (area) Run(c *core.Ctx) error {
+	leafTimeout = time.Duration(argInt(c, "leaf_timeout_ms", 1500)) * time.Millisecond
+	caseTimeout := time.Duration(argInt(c, "case_timeout_s", 30)) * time.Second
+	maxFails := argInt(c, "max_fails", 25)
 	for i := 0; i < c.N; i++ {
 		if !c.Want(i) {
 			continue
 		}
 		c.Begin(i)
-		func() {
+		done := make(chan struct{})
+		go func() {
+			defer close(done)
 			defer func() {
 				if r := recover(); r != nil {
 					c.Fail("panic", fmt.Sprintf("case %d panicked: %v", i, r))
@@ -42,6 +64,19 @@ func (area) Run(c *core.Ctx) error {
 			}()
 			runCase(c, i)
 		}()
+		select {
+		case <-done:
+		case <-time.After(caseTimeout):
+			// the case's goroutine may still write to c: nothing else may run after it
+			c.Fail("case-timeout", fmt.Sprintf("case %d did not finish within %s (a leaf / context waits for something that never happens)", i, caseTimeout))
+			c.Flush()
+			return nil
+		}
+		c.Flush()
+		if c.Fails >= maxFails {
+			c.Note(fmt.Sprintf("stopped after %d oracle failures", c.Fails))
+			return nil
+		}
 	}
 	return nil
 }
@@ -498,7 +533,45 @@ func runLayout(c *core.Ctx, w *World, q *QueryDef, l *Layout, emit bool, ctxBase
 		full = runLayout(c, w, &qq, l, false, ctxBase).res
 	}
 	op(q.resultOp(ctxBase), res.line(q, full))
+	checkTopN(c, q, res, full)
 	return runOut{res: res, full: full}
+}
+
+// checkTopN: with ORDER BY and a limit below the number of groups, and no two groups tying on
+// all order-by keys, the groups of the limited answer must be exactly the `limit` best of the
+// unlimited answer by the EXACT comparison of the keys (differences smaller than 1 included).
+func checkTopN(c *core.Ctx, q *QueryDef, res, full *Result) {
+	if len(q.OrderBy) == 0 || res.Err != "" || full.Err != "" || q.Limit >= len(full.Groups) || full.hasTies(q) {
+		return
+	}
+	keys := full.ordKeys(q, q.ftypes)
+	var ts []string
+	for t := range keys {
+		ts = append(ts, t)
+	}
+	sort.Slice(ts, func(i, j int) bool {
+		a, b := keys[ts[i]], keys[ts[j]]
+		for k := range a {
+			if a[k] != b[k] {
+				return a[k] < b[k]
+			}
+		}
+		return ts[i] < ts[j]
+	})
+	want := map[string]bool{}
+	for _, t := range ts[:q.Limit] {
+		want[t] = true
+	}
+	for t := range res.Groups {
+		if !want[t] {
+			c.Fail("order-by-limit-keeps-wrong-groups", fmt.Sprintf("limit %d of %d groups: group %q (keys*8 %v) is in the answer, the %d best by the order-by keys are %v (keys*8 of all groups: %v)",
+				q.Limit, len(full.Groups), t, keys[t], q.Limit, ts[:q.Limit], keys))
+			return
+		}
+	}
+	if len(res.Groups) != q.Limit {
+		c.Fail("order-by-limit-keeps-wrong-groups", fmt.Sprintf("limit %d of %d groups: %d groups answered", q.Limit, len(full.Groups), len(res.Groups)))
+	}
 }
 
 // ---------------------------------------------------------------- generators
@@ -560,7 +633,7 @@ func genWorld(rng *rand.Rand, types []field.Type, nSlots int) *World {
 			slot = rng.Intn(MaxSlot + 1) // sometimes in the family but outside the queried range
 		}
 		w.Points = append(w.Points, Point{Series: rng.Intn(len(w.Series)), Field: rng.Intn(nf), Slot: slot,
-			Val: int64(rng.Intn(41) - 10)})
+			Val: int64(rng.Intn(321) - 80)}) // eighths: -10.0 .. 30.0 in steps of 0.125
 	}
 	return w
 }
